@@ -185,6 +185,7 @@ impl Prop for C13 {
             faults.extend(nodesim::gen_connect_faults(&mut rng, 2));
         }
         faults.extend(nodesim::gen_freeze_faults(seed, n, last + 3000));
+        nodesim::add_restarts(seed, &mut faults);
         // requests issued right when a connection dies: the protocol is told about the closure
         // before the manager is, which opens a window between the two views
         let mut ops = ops;
@@ -286,9 +287,43 @@ impl Prop for C13 {
             net.host_down_opt(node::node_ip(n + 2), true, false);
             {
                 let world = world.clone();
-                nodesim::spawn_fault_driver(&handle, &net, &faults, Some(Arc::new(move |node, _| {
+                // a restarted node (same identity and address, no memory) serves requests again; it
+                // issues none itself, the requests of its first life are not judged (node is "dead")
+                let restart: nodesim::RestartFn = {
+                    let (handle, world, hist, knobs) = (handle.clone(), world.clone(), hist.clone(), knobs.clone());
+                    let keep: Arc<Mutex<Vec<(UnboundedSender<NodeCmd>, UnboundedSender<RrCmd>)>>> = Arc::new(Mutex::new(Vec::new()));
+                    Arc::new(move |i: usize| {
+                        if i < 1 || i > n {
+                            return;
+                        }
+                        let prev = node::CURRENT_NODE.with(|c| c.replace(i));
+                        let mut b = RrBuilder::new(ProtocolName::from("/vsim/rr/1")).with_max_size(max_size).with_timeout(Duration::from_millis(rr_timeout));
+                        if let Some(m) = max_inbound {
+                            b = b.with_max_concurrent_inbound_requests(m);
+                        }
+                        let (rc, rh) = b.build();
+                        let cfg = base_config(&handle, seed, i, &knobs).with_request_response_protocol(rc).build();
+                        match Litep2p::new(cfg) {
+                            Ok(mut l) => {
+                                for j in 1..=n {
+                                    if j != i {
+                                        l.add_known_address(peer_id(seed, j), std::iter::once(full_addr(seed, j)));
+                                    }
+                                }
+                                handle.event(format!("n{i} restarted"));
+                                handle.probe("node-restarted");
+                                let a = spawn_node_loop(&handle, hist.clone(), i, l);
+                                let d = spawn_rr_driver(&handle, world.clone(), i, rh, max_inbound);
+                                keep.lock().unwrap().push((a, d));
+                            }
+                            Err(e) => handle.event(format!("n{i} restart failed: {e:?}")),
+                        }
+                        node::CURRENT_NODE.with(|c| c.set(prev));
+                    })
+                };
+                nodesim::spawn_fault_driver_ex(&handle, &net, &faults, Some(Arc::new(move |node, _| {
                     world.lock().unwrap().dead.insert(node, true);
-                })));
+                })), Some(restart));
             }
             // ops driver
             {
